@@ -140,6 +140,51 @@ func (t *trio) sealed(mt frame.MessageType, payload, sw, apx []byte, margins [2]
 	return out, seq
 }
 
+// sealedRate is like sealed, but first lets A receive `recv` frames of the
+// same priority class from B (so that the receive rate A reports in the frame
+// is recv/64) - or, for the signed class, presets the receive rate byte.
+func (t *trio) sealedRate(mt frame.MessageType, payload []byte, recv int, signedRate uint8) []byte {
+	if mt.IsEncrypted() {
+		back := frame.NetworkTraffic
+		if mt.IsPriority() {
+			back = frame.RouterCtrl
+		}
+		for i := 0; i < recv; i++ {
+			f, err := t.bldR.NewFrameV1(t.b.ID.IP, t.a.ID.IP, back, nil, []byte("filler"), nil)
+			if err != nil {
+				panic(err)
+			}
+			if err := f.Seal(t.ba); err != nil {
+				panic(err)
+			}
+			raw, _ := f.FrameDataWithMargins(0, 0)
+			g, err := t.bldA.ParseFrame(append([]byte(nil), raw...), nil, 0)
+			f.ReturnToPool()
+			if err != nil {
+				panic(err)
+			}
+			if err := g.Unseal(t.ab); err != nil {
+				panic(fmt.Sprintf("filler frame %d did not unseal: %v", i, err))
+			}
+		}
+	}
+	t.bldA.SetFrameMargins(12, 16)
+	f, err := t.bldA.NewFrameV1(t.a.ID.IP, t.b.ID.IP, mt, nil, payload, nil)
+	if err != nil {
+		panic(err)
+	}
+	if !mt.IsEncrypted() {
+		f.SetRecvRate(signedRate)
+	}
+	if err := f.Seal(t.ab); err != nil {
+		panic(err)
+	}
+	raw, _ := f.FrameDataWithMargins(0, 0)
+	out := append([]byte(nil), raw...)
+	f.ReturnToPool()
+	return out
+}
+
 func (t *trio) sessionFor(rel string) *state.Session {
 	switch rel {
 	case "correct":
@@ -313,6 +358,51 @@ func run(c *vf.Ctx) {
 	}
 	c.Stage("R", map[string]any{"cases": nCases})
 	c.Logf("R: %d cases executed", nCases)
+
+	// ---- R (values): every value of the single-byte header fields, for frames sealed with
+	// different receive rates (the receive-rate byte reflects how full the sender's window is)
+	nval := 0
+	for cls, mts := range typesOf {
+		for _, mt := range mts {
+			for _, recv := range []int{0, 1, 32, 63, 64} {
+				t.rekey()
+				payload := t.randBytes(40)
+				wire := t.sealedRate(mt, payload, recv, uint8(recv*100/64))
+				c.Distinct(fmt.Sprintf("values|%s|%d|rate=%d", mt, recv, wire[3]))
+				for _, fld := range []struct {
+					name string
+					off  int
+					prot bool
+				}{{"ver", 0, true}, {"rate", 3, true}, {"type", 4, true}, {"swlen", 48, true}, {"ttl", 1, false}, {"flow", 2, false}} {
+					for v := 0; v < 256; v++ {
+						if byte(v) == wire[fld.off] {
+							continue
+						}
+						if !fld.prot {
+							// must stay valid: a frame that unsealed is consumed, seal a fresh one
+							wire = t.sealedRate(mt, payload, 0, wire[3])
+						}
+						data := append([]byte(nil), wire...)
+						data[fld.off] = byte(v)
+						ok, same, panicked, perr := t.unseal(data, "correct", payload)
+						c.Eval(1)
+						nval++
+						desc := map[string]any{"class": cls, "type": mt.String(), "field": fld.name, "sealed_value": wire[fld.off], "delivered_value": v, "frames_received_before_sealing": recv}
+						switch {
+						case panicked:
+							c.Violation(vf.Key("panic", cls, fld.name), fmt.Sprintf("unsealing panicked: %v", perr), desc, nil)
+						case fld.prot && ok:
+							c.Violation(vf.Key("accepted", cls, fld.name, "correct"), fmt.Sprintf("%s frame sealed with %s=%d unsealed after the byte was replaced by %d", mt, fld.name, wire[fld.off], v), desc, nil)
+						case !fld.prot && (!ok || !same):
+							c.Violation(vf.Key("rejected", cls, fld.name, "correct"), fmt.Sprintf("%s frame failed to unseal after only %s was changed to %d", mt, fld.name, v), desc, nil)
+						}
+					}
+				}
+			}
+		}
+	}
+	c.Stage("R-values", map[string]any{"unseals": nval})
+	c.Logf("R values: %d unseals", nval)
 
 	// ---- T ----
 	var events []any
